@@ -38,7 +38,6 @@ TCFLAGS := -O1 -g -fsanitize=thread $(DEFS) $(INC)
 TCXXFLAGS := -std=gnu++17 -O1 -g -fsanitize=thread $(DEFS) $(INC) -I. -Wno-deprecated-declarations
 
 EXTRA_LDFLAGS_C11 := -Wl,--wrap=write
-EXTRA_LDFLAGS_C12 := -Wl,--wrap=read,--wrap=write,--wrap=lseek,--wrap=ftruncate
 HDRS    := pbt/pbt.hpp $(wildcard ref/*.hpp) lib/zcklib.hpp $(wildcard gen/*.hpp) $(wildcard props/*.hpp)
 
 .PHONY: all header
@@ -105,6 +104,17 @@ $(A)/tools/zckdl: $(A)/tools/zck_dl.o $(A)/tools/util_common.o $(A)/libzck.a
 $(A)/tools/%: $(A)/tools/%.o $(A)/tools/util_common.o $(A)/libzck.a
 	$(CC) $(SAN) $^ $(LDLIBS) -o $@
 tools: $(A)/tools/zck $(A)/tools/unzck $(A)/tools/zck_read_header $(A)/tools/zck_delta_size $(A)/tools/zck_gen_zdict $(A)/tools/zckdl
+
+# ---------------------------------------------------------------- fault-injection builds (C12)
+WRAP := -Wl,--wrap=read,--wrap=write,--wrap=lseek,--wrap=ftruncate
+$(A)/iofault.o: lib/iofault.c
+	@mkdir -p $(dir $@)
+	$(CC) -O1 -g $(SAN) -c $< -o $@
+$(A)/C12: $(A)/C12.o $(A)/iofault.o $(A)/libzck.a
+	$(CXX) $(SAN) $(A)/C12.o $(A)/iofault.o $(A)/libzck.a $(LDLIBS) $(WRAP) -o $@
+$(A)/tools-wrap/%: $(A)/tools/%.o $(A)/tools/util_common.o $(A)/iofault.o $(A)/libzck.a
+	@mkdir -p $(dir $@)
+	$(CC) $(SAN) $^ $(LDLIBS) $(WRAP) -o $@
 
 # ---------------------------------------------------------------- dual hash back ends (C18)
 S       := $(B)/so
